@@ -6,10 +6,10 @@ ENGINE = 'chartgen+model'
 RULE = ('generated charts on every host (plain, instrumented, queued, active object; spied or not; instrumented or not): immediately '
         'after start_at and after every step state_name must be the name of the reference model\'s rest state, state_fn must be that '
         'state\'s handler or the function it decorates, and on instrumented queued charts current_state() must return the same name. '
-        'a share of the plain / instrumented host runs use charts in which DIFFERENT states share one function name (state_fn must be the handler of the state the chart is in, not of a namesake); state_name / state_fn are observed only at step boundaries; current_state() is also asked right after client-side is_in / child_state queries between two steps (the chart took no step, the answer must not change). distinct_nontrivial = distinct (host config, rest-state depth, step kind) tuples')
+        'a share of the plain / instrumented host runs use charts in which DIFFERENT states share one function name (state_fn must be the handler of the state the chart is in, not of a namesake); a share of the runs on every host use handlers that carry a user\'s own functools.wraps decorator - alone, UNDER spy_on, or two of them stacked (state_fn must be the state function or the function it decorates, not the function at the bottom of the stack); state_name / state_fn are observed only at step boundaries; current_state() is also asked right after client-side is_in / child_state queries between two steps (the chart took no step, the answer must not change). distinct_nontrivial = distinct (host config, rest-state depth, step kind) tuples')
 CASES = {'quick': 3000, 'thorough': 200000}
 BUDGET = {'quick': 150, 'thorough': 300}
-REQUIRE = {'name_observations': 30000, 'plain_host_runs': 200, 'current_state_asked_after_queries': 1000, 'charts_with_states_sharing_a_name': 100}
+REQUIRE = {'name_observations': 30000, 'plain_host_runs': 200, 'current_state_asked_after_queries': 1000, 'charts_with_states_sharing_a_name': 100, 'runs_with_stacked_decorators': 500}
 ASSUME = ['what state_name shows in the middle of a step or right after an is_in query is not asserted (current_state() is: it asks the current handler)']
 
 
@@ -17,10 +17,12 @@ def run_case(ctx, n):
   rng = ctx.rng('kind', n)
   if rng.random() < 0.35:
     return direct_case(ctx, n)
-  r = qcheck.run_qcase(ctx, n, ('C23',), with_queries=n % 2 == 0, spied=(True, False), instrumented=(True, False))
+  r = qcheck.run_qcase(ctx, n, ('C23',), with_queries=n % 2 == 0, spied=(True, False), instrumented=(True, False), decos=(None, None, None, 'wraps', 'spy-over-wraps', 'wraps-twice'), restarts=True)
   if r is None:
     return
   res, spec, cfg = r
+  if cfg.get('deco') in ('spy-over-wraps', 'wraps-twice'):
+    ctx.count('runs_with_stacked_decorators')
   for s in res.steps[:50]:
     ctx.distinct((hosts.cfg_name(cfg), s['rest'] is not None, len(s['log']) > 3))
 
@@ -37,6 +39,14 @@ def direct_case(ctx, n):
   start = rng.randrange(spec['n'])
   script = cg.gen_script(rng, spec, rng.randint(5, 40))
   cfg = {'host': rng.choice(['plain', 'instr']), 'spied': rng.random() < 0.5}
+  deco = rng.choice([None, None, 'wraps', 'spy-over-wraps', 'wraps-twice'])
+  if deco:
+    # handler styles: a user's own functools.wraps decorator, alone, under spy_on, or two of them stacked; state_fn must be the
+    # state function or the function IT decorates - not whatever sits at the bottom of the stack
+    cfg['deco'] = deco
+    cfg['spied'] = deco == 'spy-over-wraps'
+    if deco != 'wraps':
+      ctx.count('runs_with_stacked_decorators')
   res = hosts.run_config(spec, start, script, cfg, keep_chart=True)
   ctx.count('plain_host_runs')
   if res.error:
